@@ -140,6 +140,17 @@ CLAIMS["C14"] = (
     "failures such as a missing custom rule file) are only covered through the throw-type clause. Level limits are treated as part of the grid's state.",
     "DESIGN.md 4/C14")
 
+CLAIMS["C10"] = (
+    "R-SIBLING partition agreement of all dispatchers on the rule + R-SYMBOLIC: the per-family loop bodies are converted to closed forms in (x, a, b, alpha, beta) and algebraic identities "
+    "are discharged with sympy (composition, derivative, power law, end-point images)",
+    "Static rule discharge: forward map, inverse map, Jacobian, quadrature scale and domain predicate put every one of the 40+ rule enumerators into the same family; for each family "
+    "forward(inverse(x)) = inverse(forward(x)) = x, the Jacobian used by differentiate equals d(inverse)/dx, the quadrature scale equals (d forward/dx)^(1+w) with w the homogeneity of "
+    "the rule's weight (the effective alpha/beta of the Chebyshev variants included), the hierarchical support factor equals d forward/dx, and the bounds tested by getDomainInside are the "
+    "images of the canonical end points. These identities hold for all a<b and all x because they are proved symbolically, not sampled.",
+    "The conformal (asin) map, its Newton inverse and round-off at the domain boundary are not decided. The weight-homogeneity table (alpha, alpha+beta, 0) is taken from the rule "
+    "documentation in tsgEnumerates.hpp and is part of the trusted base.",
+    "DESIGN.md 4/C10")
+
 PENDING = {}
 
 NOT_APPLICABLE = {}
